@@ -33,7 +33,9 @@ ASSUMPTIONS = [
     "stamps are valid HLCTimestamps built with HLCTimestamp::new (SQLite stores the Display text; a word with fraction "
     "> 249 is not a stamp any clock produces)",
     "close+reopen = drop the handle, wait until the background thread has closed the SQLite connection (the -wal/-shm "
-    "files disappear) resp. the LMDB environment (heed's EnvClosingEvent), open the same path again, all in one process; "
+    "files disappear) resp. the LMDB environment (heed's EnvClosingEvent; the executor asks heed for the close, keeps a clone of the environment until "
+    "the backend's task thread has exited and drops the last clone itself, so that mdb_env_close never runs under that thread's exit), "
+    "open the same path again, all in one process; "
     "a child process is not needed because heed removes the environment from its per-process table on the real mdb_env_close",
     "every case keeps the stored volume far below LMDB's fixed 10 MiB map (DEFAULT_MAP_SIZE in datacake-lmdb/src/db.rs): "
     "at most three 1 MiB payloads per case, thorough tier only",
